@@ -124,6 +124,8 @@ type Peer struct {
 	CtrlSeen  [10]atomic.Int64 // control frames read, by SType
 	EOF       chan struct{}
 	closed    chan struct{}
+	tmu       sync.Mutex // orders the T event against W events of this peer
+	tdone     bool
 	closeOnce sync.Once
 	// Held holds W-bit primaries the peer has not answered (Mute), so a scenario can answer later.
 	hmu  sync.Mutex
@@ -604,7 +606,25 @@ func (p *Peer) TakeHeld() [][]byte {
 }
 
 // Close closes the peer's end of the pipe (peer close / reset).
-func (p *Peer) Close() { p.closeOnce.Do(func() { close(p.closed); _ = p.Conn.Close() }) }
+func (p *Peer) Close() {
+	p.closeOnce.Do(func() {
+		// a peer-initiated end is recorded at the instant the peer decides it, before the pipe
+		// closes; frames still being read are then no longer counted (see onData)
+		p.markDown()
+		close(p.closed)
+		_ = p.Conn.Close()
+	})
+}
+
+// markDown records the end of this generation as seen by its peer, once.
+func (p *Peer) markDown() {
+	p.tmu.Lock()
+	if !p.tdone {
+		p.tdone = true
+		p.env.record(Event{Typ: 'T', G: p.Gen})
+	}
+	p.tmu.Unlock()
+}
 
 // Resume lets a StopRead peer read again.
 func (p *Peer) Resume() {
@@ -619,6 +639,12 @@ func (p *Peer) Resume() {
 func (p *Peer) onData(f []byte) {
 	// the wire event is recorded BEFORE the independent count moves: a snapshot taken once the
 	// counts agree then has every wire event in front of it
+	p.tmu.Lock()
+	if p.tdone {
+		p.tmu.Unlock()
+		return
+	}
+	defer p.tmu.Unlock()
 	defer p.DataRecv.Add(1)
 	tok, _, ok := parseBody(f[14:])
 	var c *Call
@@ -651,7 +677,7 @@ func (p *Peer) onData(f []byte) {
 
 func (p *Peer) readLoop() {
 	defer func() {
-		p.env.record(Event{Typ: 'T', G: p.Gen})
+		p.markDown()
 		close(p.EOF)
 	}()
 	for {
@@ -757,6 +783,9 @@ func (e *Env) WaitSettled(d time.Duration) bool {
 			case <-c.done:
 				if c.Kind != KAsync && (c.Res == ROk || c.Res == RReply || c.Res == RReject || c.Res == RTimer) && atomic.LoadInt32(&c.WireGen) < 0 {
 					ok = false
+				}
+				if c.Kind == KAsync && c.Res == RQueued && c.Lo == e.Gen() && atomic.LoadInt32(&c.WireGen) < 0 && atomic.LoadInt32(&c.AsyncErr) == 0 {
+					ok = false // still queued on the live generation
 				}
 			default:
 			}
